@@ -352,7 +352,7 @@ def check(ck):
 def _c03_5(ck):
     """one response per non-notification entry, none per notification entry: shared with C04.2 / C04.2b"""
     from rules import c04, common
-    common.import_rules(ck, c04, {"C04.2": "C03.5", "C04.2b": "C03.5"})
+    common.import_rules(ck, c04, {"C04.2": "C03.5", "C04.2b": "C03.5", "C04.3": "C03.5"})
     ck.floor("C03.5", 4)
 
 
